@@ -357,8 +357,13 @@ func (i *Interface) Put(r record.Record) (err error) {
 	}
 
 	r.Lock()
-	defer r.Unlock()
-	return db.Put(r)
+	err = db.Put(r)
+	r.Unlock()
+	if err != nil {
+		// The record was not stored: do not serve it from the cache.
+		i.dropFromCache(r)
+	}
+	return err
 }
 
 // PutNew saves a record to the database as a new record (ie. with new timestamps).
@@ -398,8 +403,13 @@ func (i *Interface) PutNew(r record.Record) (err error) {
 	}
 
 	r.Lock()
-	defer r.Unlock()
-	return db.Put(r)
+	err = db.Put(r)
+	r.Unlock()
+	if err != nil {
+		// The record was not stored: do not serve it from the cache.
+		i.dropFromCache(r)
+	}
+	return err
 }
 
 // PutMany stores many records in the database.
